@@ -242,6 +242,12 @@ Definition FOREIGN_DEADLINE : Z := 4000000000000000000.
 Definition c_foreign (c : client) (id : N) : client :=
   upd_A c (fst (a_step (c_A c) (AStart id FOREIGN_DEADLINE))).
 
+(* the application stops a transaction through the agent it shares with the client (WithAgent):
+   agent.Stop(id); the "stopped" event reaches handleAgentCallback like any other error event *)
+Definition c_app_stop (fixClose fixBuf : bool) (c : client) (id : N) : client * list obs :=
+  let '(A', (_, evs)) := a_step (c_A c) (AStopErr id E_STOPPED) in
+  feed fixClose fixBuf (upd_A c A') evs (kind_evk []).
+
 Definition new_client (rto : Z) (maxA : N) (closeConn : bool) (fb : option N) : client :=
   mkClient false [] rto maxA closeConn fb (new_agent 1) 0 [] 0 0.
 
@@ -257,7 +263,8 @@ Inductive cop : Type :=
 | CClose
 | CTickRace (now : Z)
 | CDeliverRace (datagram : list byte)
-| CForeign (id : N).
+| CForeign (id : N)
+| CAppStop (id : N).
 
 Definition c_step (fixClose fixBuf : bool) (tid_of : list byte -> N) (c : client) (o : cop) : client * list obs :=
   match o with
@@ -272,6 +279,7 @@ Definition c_step (fixClose fixBuf : bool) (tid_of : list byte -> N) (c : client
   | CTickRace now => c_tick_race fixClose fixBuf c now
   | CDeliverRace d => c_deliver_race fixClose fixBuf c d tid_of
   | CForeign id => (c_foreign c id, [])
+  | CAppStop id => c_app_stop fixClose fixBuf c id
   end.
 
 Fixpoint c_run (fixClose fixBuf : bool) (tid_of : list byte -> N) (c : client) (ops : list cop)
